@@ -159,25 +159,25 @@ Definition sum_pkgversion (e : entry) : option str :=
 (* ================= SummaryStream ================= *)
 (* std::str::from_utf8 validity *)
 Definition cont (b : N) : bool := (128 <=? b) && (b <=? 191).
-Definition inr (lo hi b : N) : bool := (lo <=? b) && (b <=? hi).
+Definition in_rng (lo hi b : N) : bool := (lo <=? b) && (b <=? hi).
 Fixpoint utf8_valid (s : str) : bool :=
   match s with
   | [] => true
   | b0 :: r =>
       if b0 <? 128 then utf8_valid r
-      else if inr 194 223 b0 then
+      else if in_rng 194 223 b0 then
         match r with b1 :: r1 => cont b1 && utf8_valid r1 | _ => false end
-      else if inr 224 239 b0 then
+      else if in_rng 224 239 b0 then
         match r with
         | b1 :: b2 :: r2 =>
-            (if b0 =? 224 then inr 160 191 b1 else if b0 =? 237 then inr 128 159 b1 else cont b1)
+            (if b0 =? 224 then in_rng 160 191 b1 else if b0 =? 237 then in_rng 128 159 b1 else cont b1)
             && cont b2 && utf8_valid r2
         | _ => false
         end
-      else if inr 240 244 b0 then
+      else if in_rng 240 244 b0 then
         match r with
         | b1 :: b2 :: b3 :: r3 =>
-            (if b0 =? 240 then inr 144 191 b1 else if b0 =? 244 then inr 128 143 b1 else cont b1)
+            (if b0 =? 240 then in_rng 144 191 b1 else if b0 =? 244 then in_rng 128 143 b1 else cont b1)
             && cont b2 && cont b3 && utf8_valid r3
         | _ => false
         end
